@@ -395,6 +395,14 @@ func init() {
 					menu = append(menu, p)
 				}
 			}
+			// accepted configurations whose location is bound to host names written with capitals / as the validator accepts them
+			for _, hn := range []string{"Assets.Example.com", "UPPER.EXAMPLE", "xn--bcher-kva.example", "a-b.c-d.example"} {
+				p := mk([]string{"a"}, "a", map[string]string{"l1": "a"}, []string{"l1"}, "")
+				p.Locations[0].Hosts = []string{hn}
+				if p.Validate() == nil {
+					menu = append(menu, p)
+				}
+			}
 			// accepted configurations whose cache names a store that cannot be opened when the configuration is applied
 			for _, u := range []string{c11BadStore, "redis://127.0.0.1:1/?timeout=100ms"} {
 				p := mk([]string{"a"}, "a", map[string]string{"l1": "a"}, []string{"l1"}, "")
@@ -402,10 +410,16 @@ func init() {
 				menu = append(menu, p)
 			}
 			st.Bounds = fmt.Sprintf("%d accepted configurations: each fresh, and every ordered pair as start+reload", len(menu))
-			probe := func(e *env.Env, what string) {
+			probe := func(e *env.Env, what string, cfg *config.PikeConfig) {
 				e.Respond = func(oc *env.OriginCall) env.OriginResp { return env.Cacheable(oc, 10, "p") }
+				host := "" // a client of a host-bound location writes the host the way the configuration does
+				for _, l := range cfg.Locations {
+					if len(l.Hosts) > 0 && len(cfg.Servers) > 0 && len(cfg.Servers[0].Locations) > 0 && cfg.Servers[0].Locations[0] == l.Name {
+						host = l.Hosts[0]
+					}
+				}
 				for _, u := range []string{"/", "/x"} {
-					r := e.Do(env.Req{URI: u, Rid: "p"})
+					r := e.Do(env.Req{URI: u, Rid: "p", Host: host})
 					st.Execs++
 					if r.Status != 200 {
 						c.Violation("apply", fmt.Sprintf("request-fails-%d", r.Status), fmt.Sprintf("%s: GET %s answered %d %s", what, u, r.Status, trunc(r.Body)), nil, what, nil)
@@ -425,14 +439,14 @@ func init() {
 					}
 					e := env.New(a)
 					if j < 0 {
-						probe(e, fmt.Sprintf("fresh start with menu[%d]", i))
+						probe(e, fmt.Sprintf("fresh start with menu[%d]", i), a)
 					} else {
-						probe(e, fmt.Sprintf("fresh start with menu[%d]", i))
+						probe(e, fmt.Sprintf("fresh start with menu[%d]", i), a)
 						if err := env.Apply(menu[j]); err != nil {
 							c.Violation("apply", "apply-error", err.Error(), nil, nil, nil)
 						}
 						e.Rebind()
-						probe(e, fmt.Sprintf("menu[%d] reloaded to menu[%d]", i, j))
+						probe(e, fmt.Sprintf("menu[%d] reloaded to menu[%d]", i, j), menu[j])
 					}
 					e.Close()
 				}
